@@ -436,6 +436,17 @@ impl DnsCache {
             });
         }
 
+        // Records of instances that no PTR record points to (any more) are not reached
+        // by the walk above. Evict them as well: there is nobody to report them to, but
+        // they must not stay in the cache (and be used) past their TTL.
+        for records_map in [&mut self.srv, &mut self.txt, &mut self.nsec] {
+            records_map.retain(|_, records| {
+                records.retain(|r| !r.record.get_record().is_expired(now));
+                !records.is_empty()
+            });
+        }
+        self.ptr.retain(|_, records| !records.is_empty());
+
         expired_instances
     }
 
